@@ -106,6 +106,15 @@ def s10_scan_input(chk: Check, proj: Project, m) -> None:
     chk.ob("S10", "dependencies:render_dependencies:default-location-scan-sees-no-inserted-content", m.loc(scan[0]), not (after and inserts),
            "the default-location scan runs on the text as it was before the dependency content was inserted" if not after else
            f"`{short(scan[0], 60)}` scans `{W}` after `{short(sub[0], 50)}` has already put the collected JS / CSS into it: an end tag inside a component's own script (js = \"var s = '</head>';\") is taken for the document's, and the CSS is spliced into that script")
+    # the same inside the insertion helper: once one kind has been inserted, nothing is scanned again
+    g = m.func("_insert_js_css_to_default_locations")
+    chk.analysed(fkey(m, g))
+    ins_vars = {norm(st.targets[0]) for st, _S, _i, _c in _insertions(g)}
+    rescans = [c for c in calls(g) if isinstance(c.func, ast.Attribute) and c.func.attr in ("finditer", "search", "match", "findall", "find", "rfind", "index", "rindex")
+               and any(isinstance(x, ast.Name) and x.id in ins_vars for a in c.args for x in ast.walk(a)) or (isinstance(c.func, ast.Attribute) and c.func.attr in ("find", "rfind", "index", "rindex") and norm(c.func.value) in ins_vars)]
+    chk.ob("S10", "dependencies:_insert_js_css_to_default_locations:no-scan-of-text-with-inserted-content", m.loc(rescans[0]) if rescans else m.loc(g), not rescans,
+           f"every search in the helper reads the text as it came in; `{', '.join(sorted(ins_vars)) or 'the result'}` (text with inserted content) is only written" if not rescans else
+           f"`{short(rescans[0], 70)}` searches `{', '.join(sorted(ins_vars))}` after the CSS has been inserted into it: a `</body>` inside a component's own CSS (legal in a comment or a `content:` string) is taken for the document's, and the JS is spliced into the middle of the inserted <style> block")
 
 
 _INDEX_CALLS = ("start", "end", "find", "rfind", "index", "rindex")
